@@ -1,4 +1,5 @@
 mod c05;
+mod c08;
 mod child;
 mod doc;
 mod exec;
@@ -134,7 +135,7 @@ fn main() {
         child::child_main(&args[2]);
     }
     let noaslr = ensure_no_aslr();
-    let checks: Vec<&dyn framework::Check> = vec![&c05::C05];
+    let checks: Vec<&dyn framework::Check> = vec![&c05::C05, &c08::C08];
     let flag = |name: &str| -> Option<String> { args.iter().position(|a| a == name).and_then(|i| args.get(i + 1).cloned()) };
     let verif = std::path::PathBuf::from(flag("--verif").unwrap_or_else(|| "/verif".into()));
     match args.get(1).map(|s| s.as_str()) {
@@ -158,7 +159,7 @@ fn main() {
             };
             let seed = flag("--seed").or_else(|| std::env::var("VERIF_SEED").ok()).and_then(|s| s.parse::<u64>().ok()).unwrap_or(framework::DEFAULT_SEED);
             let workers = flag("--workers").and_then(|s| s.parse().ok()).unwrap_or_else(|| std::thread::available_parallelism().map(|n| n.get()).unwrap_or(4));
-            let cfg = framework::RunCfg { verif, tier, seed, workers, scenarios: flag("--scenarios").and_then(|s| s.parse().ok()), write_evidence: !args.iter().any(|a| a == "--no-evidence") };
+            let cfg = framework::RunCfg { verif, tier, seed, workers, scenarios: flag("--scenarios").and_then(|s| s.parse().ok()), write_evidence: !args.iter().any(|a| a == "--no-evidence"), only: flag("--only").and_then(|s| s.parse().ok()) };
             if !noaslr {
                 eprintln!("guardsim: note: could not disable ASLR; heap addresses are perturbed but not replay-exact");
             }
